@@ -118,6 +118,7 @@ func (i *interpreter) step(fr *frame) {
 }
 
 func (i *interpreter) enterFunc(fn *ssa.Function) {
+	i.lastFn = fn.String()
 	if i.path == nil {
 		return
 	}
